@@ -24,6 +24,9 @@ def plan(tier, seed):
             files = {"code.py": b64(gen.layout(r["input"], lay))}
             m = mk[i % len(mk)]; i += 1
             files.update({k: b64(v) for k, v in c03.MANIFESTS[m].items()})
+            if i % 3 == 0:
+                # a link inside the project that aliases another analysed file (and one to a directory): whatever the listing does with links, dry and real run must agree
+                files["alias_link.py"] = {"symlink": "code.py"}; files["pkg_link"] = {"symlink": "."}
             extra = rnd.choice(([], ["--verbose"], ["--max-workers", "4"], ["--path-include", "*.py"]))
             for dry in (True, False):
                 jobs.append({"id": f"{cid}|{hashlib.sha1(r['input'].encode()).hexdigest()[:8]}|{m}|{'dry' if dry else 'real'}", "pair": f"{cid}|{i}", "cid": cid, "dry": dry, "files": files,
